@@ -148,6 +148,8 @@ CASTS = ['bool(v_x)', 'int(v_x)', 'decimal(v_x)', 'str(v_x)', 'date(v_x)']
 for _t, _name, _pick in [(object, 'obj', [0, 1, 2, 3, 4]), (int, 'int', [0, 1, 2, 3]), (bool, 'bool', [0, 1, 2, 3]),
                          (D, 'decimal', [0, 1, 2, 3]), (str, 'str', [0, 1, 2, 3, 4]), (DATE, 'date', [0, 3, 4])]:
     _g('cast_' + _name, [('v_x', _t)], [CASTS[i] for i in _pick], 'g_cast', lambda r: cx(r[0]), pick=_pick)
+_g('pdate2', [('v_s', str), ('v_f', str)], ['parse_date(v_s, v_f)'], 'g_pdate', lambda r: cstr(r[0]))
+_g('pdate1', [('v_s', str)], ['parse_date(v_s)'], 'g_pdate', lambda r: cstr(r[0]))
 _g('date3', [('v_y', int), ('v_m', int), ('v_d', int)], ['date(v_y, v_m, v_d)'],
    'g_date3', lambda r: ctuple(cZ(r[0]), cZ(r[1]), cZ(r[2])))
 
@@ -644,7 +646,24 @@ def date3_rows(tier, rng):
     return [(y, m, d) for y in ys for m in ms for d in ds]
 
 
+def pdate2_rows(tier, rng):
+    ss = [s for s in CAST_POOL[str] if all(ord(c) < 128 for c in s)]
+    for _ in range(300 if tier == 'quick' else 5000):
+        ss.append('%s-%s-%s' % (rng.choice(['2020', '1999', '2100', '0999', '999', '20200', '1900', '2000']),
+                                rng.choice(['1', '01', '12', '13', '00', '2', '02', ' 2', '10', '001']),
+                                rng.choice(['1', '01', '31', '30', '29', '28', '32', '00', ' 1', '  1', '010', '9'])))
+        ss.append(rdate(rng).isoformat())
+    return [(s, '%Y-%m-%d') for s in ss]
+
+
+def pdate1_rows(tier, rng):
+    """dateutil is not modelled: only zero-padded ISO dates, where it has to agree with strptime"""
+    return [(rdate(rng).isoformat(),) for _ in range(300 if tier == 'quick' else 5000)] + \
+        [(d.isoformat(),) for d in CAST_POOL[DATE] if d.year >= 1000]
+
+
 GENERATORS = {
+    'pdate2': pdate2_rows, 'pdate1': pdate1_rows,
     'dates': date_rows, 'arith': arith_rows, 'interval': interval_rows, 'bin': bin_rows, 'acct': acct_rows,
     'substr': substr_rows, 'split': split_rows, 'maxw': maxw_rows, 'regex': regex_rows, 'set': set_rows,
     'dec1': dec1_rows, 'div': div_rows, 'int': int_rows, 'date3': date3_rows,
